@@ -43,6 +43,8 @@ Definition M_rows (t : vlevel) : res (list (list val)) := M_iter t.
 Definition check_iter_M (t : vlevel) (obs : list (list val)) : bool := res_eqb rows_eqb (M_iter t) (Ok obs).
 Definition check_col_M (t : vlevel) (d : nat) (obs : list val) : bool :=
   res_eqb (list_eqb val_eqb) (M_values_at_depth t d) (Ok obs).
+Definition check_labels_M (t : vlevel) (d : nat) (obs : list val) : bool :=
+  res_eqb (list_eqb val_eqb) (M_labels_at_depth t d) (Ok obs).
 Definition check_col_S (rows : list (list val)) (d : nat) (obs : list val) : bool :=
   list_eqb val_eqb (S_column rows d) obs.
 Definition check_widths_M (t : vlevel) (d : nat) (obs : list (val * Z)) : bool :=
